@@ -216,6 +216,10 @@ type c11Scenario struct {
 	Build func(w *c11World) (threads []func(), final func() (bad string, obs string))
 }
 
+// c11FreeOracle: scenarios whose final oracle only reads what the threads stored in their own slots; it is also
+// evaluated after every repetition of the free-running pass (a wrong answer there is a real execution)
+var c11FreeOracle = map[string]bool{"S13-same-query-different-filters": true}
+
 type c11World struct {
 	db    *database.Database
 	solo  map[string]string
@@ -531,6 +535,47 @@ func c11Scenarios() []c11Scenario {
 				return "", "7"
 			}
 		}},
+		{"S13-same-query-different-filters", func(w *c11World) ([]func(), func() (string, string)) {
+			// the same query text asked at the same time with different platform lists / context boosts, all
+			// callers sharing one boosts map (as one process with one project context does)
+			cdb := database.NewMonitoredDatabase(w.db)
+			shared := map[string]float64{"files": 1.5}
+			oL := Opts{Limit: 3, UseNLP: true, Platforms: []string{"linux"}, ContextBoosts: shared}
+			oW := Opts{Limit: 3, UseNLP: true, Platforms: []string{"windows"}, ContextBoosts: shared}
+			oB := Opts{Limit: 3, UseNLP: true, Platforms: []string{"linux"}, ContextBoosts: map[string]float64{"files": 1.5, "git": 4}}
+			var res [4]string
+			th := []func(){
+				func() { res[0] = uDigest(uItems(w.db, cdb.SearchWithOptionsAndCache("git files", oL))) },
+				func() { res[1] = uDigest(uItems(w.db, cdb.SearchWithOptionsAndMonitoring("GIT files", oW))) },
+				func() {
+					res[2] = uDigest(uItems(w.db, cdb.SearchWithOptionsAndCache("git files", oB)))
+					res[3] = uDigest(uItems(w.db, w.db.SearchUniversal("find files", oL)))
+				},
+			}
+			return th, func() (string, string) {
+				fresh := func(o Opts) Opts {
+					cp := map[string]float64{}
+					for k, v := range o.ContextBoosts {
+						cp[k] = v
+					}
+					o.ContextBoosts = cp
+					return o
+				}
+				obs := strings.Join(res[:], "/")
+				if len(shared) != 1 || shared["files"] != 1.5 {
+					return fmt.Sprintf("the caller's context-boost map was modified by the searches: %v", shared), obs
+				}
+				for i, c := range []struct {
+					q string
+					o Opts
+				}{{"git files", oL}, {"GIT files", oW}, {"git files", oB}, {"find files", oL}} {
+					if want := w.soloAnswer(c.q, fresh(c.o)); res[i] != want {
+						return fmt.Sprintf("search %d (%q, platforms %v, boosts %v) returned %s, alone it returns %s", i, c.q, c.o.Platforms, c.o.ContextBoosts, res[i], want), obs
+					}
+				}
+				return "", obs
+			}
+		}},
 		{"S12-histogram-observations", func(w *c11World) ([]func(), func() (string, string)) {
 			col := metrics.NewCollector()
 			h := col.Histogram("lat", nil)
@@ -753,7 +798,7 @@ func c11Run(c *lib.Ctx) {
 	}
 	// assign workers to scenarios: scenario = shard % len, r = shard / len
 	// worker -> scenario table: the monitored-database scenario has by far the largest schedule space
-	table := []int{0, 1, 2, 3, 4, 5, 6, 7, 8, 9, 10, 11, 5, 5, 5, 5}
+	table := []int{0, 1, 2, 3, 4, 5, 6, 7, 8, 9, 10, 11, 12, 5, 5, 5}
 	if c.NShards != len(table) {
 		table = nil
 		for i := 0; i < c.NShards; i++ {
@@ -820,6 +865,7 @@ func c11RaceChild(args []string) int {
 		if sc.Name != args[0] {
 			continue
 		}
+		reported := false
 		for i := 0; i < reps; i++ {
 			th, final := sc.Build(w)
 			var wg sync.WaitGroup
@@ -830,7 +876,10 @@ func c11RaceChild(args []string) int {
 			}
 			close(start)
 			wg.Wait()
-			final()
+			if bad, _ := final(); bad != "" && c11FreeOracle[sc.Name] && !reported {
+				reported = true
+				fmt.Fprintf(os.Stderr, "FREE-RUN-ORACLE: repetition %d: %s\n", i, bad)
+			}
 		}
 		return 0
 	}
@@ -891,6 +940,15 @@ func c11RacePass(c *lib.Ctx, sc c11Scenario) {
 			Case: c11Case{Scenario: sc.Name, Race: truncStr(rep, 3000)}})
 		return
 	}
+	if i := strings.Index(out, "FREE-RUN-ORACLE: "); i >= 0 {
+		line := out[i+len("FREE-RUN-ORACLE: "):]
+		if j := strings.Index(line, "\n"); j >= 0 {
+			line = line[:j]
+		}
+		c.Violate(lib.Violation{Key: "free-run-oracle:" + sc.Name, What: fmt.Sprintf("%s: a free run of the scenario (real goroutines, no scheduler) ended in a state the oracle rejects: %s", sc.Name, truncStr(line, 600)),
+			Case: c11Case{Scenario: sc.Name, Race: "free-run-oracle: " + truncStr(line, 1500)}})
+		return
+	}
 	if err != nil {
 		c.Fail("race pass of %s failed: %v: %s", sc.Name, err, truncStr(out, 500))
 	}
@@ -900,7 +958,7 @@ func init() {
 	lib.Subs["c11race"] = c11RaceChild
 	lib.Register(&lib.Check{
 		ID: "C11", Level: "model_checking",
-		Rule:      "stateless schedule exploration (iterative context bounding): 12 closed scenarios of 3 threads x 1-3 operations on the real objects - S1 LRU capacity 2 (put/get/size/stats on colliding keys), S10 LRU with two writers of one key, S2 LRU with TTL (get / delete+put / clock advance+sweep+stats), S3 CachedDatabase (cached searches, InvalidateCache, CleanupExpiredCache, GetCacheStats), S11 CachedDatabase with entries ageing past their lifetime (searches vs clock advance + sweep vs stats + invalidate), S4 MonitoredDatabase (monitored searches + report), S5 metrics collector (two threads creating the same new series + histogram + GetAllMetrics), S6 direct SearchUniversal, S7 first searches on the loader's built-in fallback database, S8 SearchCache Put/Get vs InvalidatePattern, S9 counter/gauge increments, S12 five observations of one histogram from three goroutines with a reader of count and sum (exact sum, no lost update) - every interleaving with <=3 (quick) / <=4 (thorough) preemptions at every Lock/RLock/atomic operation of the code under test; per execution: search answers equal solo answers, the recorded LRU call/return history is linearizable w.r.t. the LRU+TTL model (porcupine), totals equal the calls made, no deadlock / panic. states = executions (each a distinct schedule), transitions = scheduling points, traces validated = executions. Beside it, per scenario, a free-running -race pass (200 / 3000 repetitions) of the same bodies built without the scheduler shims: dynamic analysis, reported under race_pass_runs, not part of the exhaustive count. non-trivial = distinct observed outcomes",
+		Rule:      "stateless schedule exploration (iterative context bounding): 13 closed scenarios of 3 threads x 1-3 operations on the real objects - S1 LRU capacity 2 (put/get/size/stats on colliding keys), S10 LRU with two writers of one key, S2 LRU with TTL (get / delete+put / clock advance+sweep+stats), S3 CachedDatabase (cached searches, InvalidateCache, CleanupExpiredCache, GetCacheStats), S11 CachedDatabase with entries ageing past their lifetime (searches vs clock advance + sweep vs stats + invalidate), S4 MonitoredDatabase (monitored searches + report), S5 metrics collector (two threads creating the same new series + histogram + GetAllMetrics), S6 direct SearchUniversal, S7 first searches on the loader's built-in fallback database, S8 SearchCache Put/Get vs InvalidatePattern, S9 counter/gauge increments, S13 the same query asked at the same time through the cached / monitored / direct entry points with different platform lists and context boosts by callers sharing one boosts map (answers as alone; the caller's map untouched; its oracle is also evaluated after every repetition of the free-running pass), S12 five observations of one histogram from three goroutines with a reader of count and sum (exact sum, no lost update) - every interleaving with <=3 (quick) / <=4 (thorough) preemptions at every Lock/RLock/atomic operation of the code under test; per execution: search answers equal solo answers, the recorded LRU call/return history is linearizable w.r.t. the LRU+TTL model (porcupine), totals equal the calls made, no deadlock / panic. states = executions (each a distinct schedule), transitions = scheduling points, traces validated = executions. Beside it, per scenario, a free-running -race pass (200 / 3000 repetitions) of the same bodies built without the scheduler shims: dynamic analysis, reported under race_pass_runs, not part of the exhaustive count. non-trivial = distinct observed outcomes",
 		Assume:    []string{"scheduling points are the sync and sync/atomic function-API operations of the repository packages (build overlay); plain memory accesses are covered only by the separate race pass", "the shim RWMutex is writer-preferring like Go's (a reader arriving after Lock was called waits for that writer's Unlock)", "sequential consistency"},
 		QuickSecs: 360, ThorSecs: 1800, Graph: true,
 		Run: c11Run,
